@@ -1341,7 +1341,21 @@ pub fn read_memory_by_pid(pid: Pid, addr: usize, read_n: usize) -> Result<Vec<u8
 
     let mut addr = addr as *mut c_long;
     while read_reminder > 0 {
-        let value = sys::ptrace::read(pid, addr as *mut c_void)?;
+        let value = match sys::ptrace::read(pid, addr as *mut c_void) {
+            Ok(value) => value,
+            Err(e) if (read_reminder as usize) < single_read_size => {
+                // the last word may reach into an unmapped page although the requested
+                // bytes are all mapped: read the word that ends with the request instead
+                let shift = single_read_size - read_reminder as usize;
+                let Some(shifted) = (addr as usize).checked_sub(shift) else {
+                    return Err(e);
+                };
+                let value = sys::ptrace::read(pid, shifted as *mut c_void).map_err(|_| e)?;
+                result.extend(value.to_ne_bytes().into_iter().skip(shift));
+                break;
+            }
+            Err(e) => return Err(e),
+        };
         result.extend(value.to_ne_bytes().into_iter().take(read_reminder as usize));
 
         read_reminder -= single_read_size as isize;
